@@ -455,8 +455,8 @@ static int caller_memory_intact(call_t *c)
 
 static int the_hook(int kind, const char *path, char *const argv[], char *const envp[])
 {
-    long long h1 = heap_now();
     call_t *c = cur_call;
+    long long h1 = (c && c->snap) ? heap_now() : 0;     /* mallinfo2 only when asked for (not under TSan's allocator) */
     int saved_errno;
     if (g_markers) prctl(MARK, 2, 0, 0, 0);
     if (S.ok && S.coop_point) S.coop_point('r');
@@ -501,7 +501,7 @@ static int the_hook(int kind, const char *path, char *const argv[], char *const 
         return -1;
     }
     pthread_mutex_unlock(&ev_mutex);
-    c->h1b = heap_now();
+    c->h1b = c->snap ? heap_now() : 0;
     errno = c->err;
     return c->ret;
 }
@@ -542,14 +542,14 @@ static void call_run(call_t *c)
     cur_call = c;
     ps0.len = 0;
     if (c->snap) { pthread_mutex_lock(&ev_mutex); state_snapshot(&ps0); pthread_mutex_unlock(&ev_mutex); }
-    c->h0 = heap_now();
+    c->h0 = c->snap ? heap_now() : 0;
     if (g_markers) prctl(MARK, 1, 0, 0, 0);
     errno = 0;
     if (c->kind == 1) ret = execve(c->path, c->argv, c->envp);
     else ret = execv(c->path, c->argv);
     err = errno;
     if (g_markers) prctl(MARK, 3, 0, 0, 0);
-    c->h2 = heap_now();
+    c->h2 = c->snap ? heap_now() : 0;
     cur_call = NULL;
     pthread_mutex_lock(&ev_mutex);
     int intact = caller_memory_intact(c);
